@@ -185,6 +185,13 @@ func load(repo, tier string) (*Ctx, error) {
 		}
 	}
 	c.cg = buildCallGraph(c)
+	codeNamesByValue = map[int64][]string{}
+	for name, v := range c.codeValuesAST() {
+		codeNamesByValue[v] = append(codeNamesByValue[v], name)
+	}
+	for _, names := range codeNamesByValue {
+		sort.Strings(names)
+	}
 	return c, nil
 }
 
